@@ -99,7 +99,7 @@ ADD_TEXT = {
  'C05': 'ThreadPool::execute and the whole of WorkThread (execute, popOneTask, cancel with the order of the remaining tasks, worker loop, cleanup, guarded-by stop flag) are under contract as well.',
  'C06': 'TcpConnection and TcpServer: the buffered descriptor / the connection object is disabled, detached and destroyed only by a posted task, exactly once; a peer close is reported exactly once; sends after the close are refused.',
  'C07': 'hasRead / hasWritten are proved for ANY size (no wrap of index + size).',
- 'C09': 'Sink (filter, handleLog, cached timestamp string, enable/disable order) and the AsyncSink back-end re-framing loop are under contract as well.',
+ 'C09': 'Sink (filter, handleLog, cached timestamp string, enable/disable order), the AsyncSink back-end re-framing loop and the record formatting (every append inside its source object) are under contract as well.',
  'C12': 'Server::Impl::commitRespond (order, once, nothing after the closing response) and Server::Impl::onTcpReceived (one context per request, the closing request is the last one, the read side stays open while a response is owed, clean drop on parse failure); the parser contract also states that a declared body is part of what is consumed.',
  'C13': 'Telnetd::Impl::onTcpReceived framing loop: bounds of every byte looked at, complete-negotiation-or-wait, progress (bounded domain: 64 pending bytes).',
  'C14': 'Rpc::request / onRecvRespond / onRequestTimeout: one fresh id per request for callback, deadline and message; an outstanding id is completed exactly once, unknown / duplicate / late ids are ignored.',
@@ -112,7 +112,7 @@ FIX_NOTE = {
  'C03': ('The select event class, fillFdSets and shared-record reference counting are not under contract.', 'The select event class, removeInvalidFds and shared-record reference counting are not under contract; select(2) descriptors are assumed < FD_SETSIZE.'),
  'C05': ('Interleavings, liveness and WorkThread are not decided', 'Interleavings and liveness are not decided'),
  'C06': ('Read path and the TCP classes are not covered', 'The read path (attempted; the harness is beyond the installed solvers, DESIGN I.8) and acceptor/connector/client are not covered'),
- 'C09': ('Sink level filter, back-end re-framing, file roll-over and interleavings are not decided.', 'Record formatting, file roll-over and interleavings are not decided.'),
+ 'C09': ('Sink level filter, back-end re-framing, file roll-over and interleavings are not decided.', 'The produced text, file roll-over and interleavings are not decided.'),
  'C12': ('and the rest of the server pipeline (onTcpReceived, connection close) are not decided', 'and onTcpSendCompleted / the handler chain are not decided; at most 10^9 bytes pending per receive call'),
  'C13': ('telnet negotiation (telnetd.cpp), ', 'content-level telnet framing, '),
  'C14': ('Rpc request bookkeeping (unordered_map), PacketProto,', 'the Rpc service side, re-entrant completion callbacks, PacketProto,'),
